@@ -61,7 +61,7 @@ def point_to_circle(point, center, radius, normal, epsilon=1e-6):
     else:  # on the line defined by center and normal of the circle
         plane_direction = norm_vector(pr.perpendicular_to_vector(normal))
         closest_point_circle = center + radius * plane_direction
-        dist = math.sqrt(radius * radius + dist_to_plane * dist_to_plane)
+        dist = np.linalg.norm(point - closest_point_circle)
 
     return dist, closest_point_circle
 
